@@ -118,7 +118,19 @@ def make_body(case):
         m = build_model()
         cl = ScheduledClient(ch, cores=case.get('cores', 2), isolation='shared', default=case.get('default', 'lazy'))
         elfi.client.set_client(cl)
-        gp = StubGP(['t'], BOUNDS)
+        if case.get('gp') == 'real':
+            # the real GPy surrogate (thorough tier, deviation-bounded schedules): updates are logged by a wrapper
+            from elfi.methods.bo.gpy_regression import GPyRegression
+            gp = GPyRegression(['t'], bounds=BOUNDS, max_opt_iters=10)
+            gp.log = []
+            _orig_gp_update = gp.update
+
+            def _logged_update(x, y, optimize=False):
+                gp.log.append((len(np.asarray(x).reshape(-1, 1)), bool(optimize)))
+                return _orig_gp_update(x, y, optimize)
+            gp.update = _logged_update
+        else:
+            gp = StubGP(['t'], BOUNDS)
         if case['acq'] == 'uniform':
             acq = UniformAcquisition(gp, seed=3)
         else:
@@ -154,7 +166,8 @@ def make_body(case):
                                        update_interval=ui, batch_size=bs, batches_per_acquisition=bpa,
                                        max_parallel_batches=mpb, seed=1, async_acq=bool(case.get('async')))
         holder['bo'] = bo
-        cl.state_fn = lambda c, where: sampler_state(bo, c, where, immutable_types=('ElfiModel', 'ModelPrior'))
+        cl.state_fn = (lambda c, where: None) if case.get('gp') == 'real' else \
+            (lambda c, where: sampler_state(bo, c, where, immutable_types=('ElfiModel', 'ModelPrior')))
         consumed = []
         orig_update = bo.update
 
@@ -185,7 +198,7 @@ def make_body(case):
             expY = np.r_[expY, dd.reshape(-1, 1)]
         if [c[0] for c in consumed] != list(range(len(consumed))):
             mon.append('batches not consumed in index order: %r' % ([c[0] for c in consumed],))
-        if not (np.array_equal(gp.X, expX) and np.array_equal(gp.Y, expY)):
+        if not (np.array_equal(np.asarray(gp.X), expX) and np.array_equal(np.asarray(gp.Y), expY)):
             mon.append('surrogate evidence is not precomputed + consumed batches in order')
         if bo.n_evidence != len(expX) or gp.n_evidence != len(expX):
             mon.append('n_evidence %r / surrogate %r differs from the %d evidence rows' % (bo.n_evidence, gp.n_evidence, len(expX)))
@@ -202,9 +215,9 @@ def make_body(case):
         if cl.tasks or cl.done:
             mon.append('tasks left in the client')
         mon += cl.monitor
-        return {'result': digest((gp.X, gp.Y, gp.log)), 'monitor': mon, 'log': digest(cl.log),
+        return {'result': digest((np.asarray(gp.X), np.asarray(gp.Y), gp.log)), 'monitor': mon, 'log': digest(cl.log),
                 'max_outstanding': cl.max_outstanding, 'n_acq': len(acq_log),
-                'brief': jsonable({'X': gp.X.ravel(), 'updates': gp.log})}
+                'brief': jsonable({'X': np.asarray(gp.X).ravel(), 'updates': gp.log})}
     return body
 
 
@@ -399,6 +412,14 @@ def run(ctx):
         for init in (0, 2, 'dict'):
             cases.append({'kind': 'tree', 'acq': acq, 'bs': 1, 'bpa': 2, 'init': init, 'update_interval': 1, 'mpb': 2,
                           'n_acq_batches': 3, 'prune': False, 'bound': None if init != 2 else 4})
+    # thorough: the real GPy surrogate with the real LCBSC rule under every schedule with at most two deviations from the
+    # lazy and from the eager default (each execution fits and optimises real GPs)
+    if not q:
+        for init in (2, 'dict'):
+            for default in ('lazy', 'eager'):
+                cases.append({'kind': 'tree', 'acq': 'lcbsc', 'gp': 'real', 'bs': 1, 'bpa': 1, 'init': init,
+                              'update_interval': 2, 'mpb': 2, 'n_acq_batches': 4, 'prune': False, 'bound': 2,
+                              'default': default, 'noise': 0.05})
     # asynchronous acquisition: monitors only (the statement promises schedule independence for synchronous mode)
     for init in (0, 2):
         cases.append({'kind': 'tree', 'acq': 'uniform', 'bs': 1, 'bpa': 1, 'init': init, 'update_interval': 1, 'mpb': 2,
